@@ -29,6 +29,7 @@ let sig_of_code = function
   | 4 -> "sig=not-retrievable a field is not found in the section its tag belongs to with its wire value"
   | 5 -> "sig=leading-order-accepted a message not starting with 8, 9, 35 is accepted"
   | 6 -> "sig=bodylength-accepted a message whose BodyLength disagrees with its content is accepted"
+  | 8 -> "sig=foreign-field a section of the parsed message exposes a tag that is not on the wire"
   | 7 -> "sig=body-bytes-wrong bodyBytes (what a resend replays) is not the wire's body: it must end where the trailer fields begin"
   | _ -> "sig=unclassified"
 
